@@ -400,9 +400,11 @@ func (c *Float) Ident() string {
 		// always represent x86_fp80 in hexadecimal floating-point notation.
 		const hexPrefix = 'K'
 		if c.NaN {
-			se, m := float80x86.NaN.Bits()
+			// Canonical quiet NaN of the x87 format: exponent all ones, integer
+			// bit and quiet bit set (what LLVM prints for a NaN of type x86_fp80).
+			se, m := uint16(0x7FFF), uint64(0xC000000000000000)
 			if c.X != nil && c.X.Signbit() {
-				se, m = float80x86.NegNaN.Bits()
+				se |= 0x8000
 			}
 			return fmt.Sprintf("0x%c%04X%016X", hexPrefix, se, m)
 		}
